@@ -9,7 +9,7 @@ from vf.core import Report, Bounded, Violation
 from vf.runner import run_contracts
 from . import e2e
 
-LEVEL = "exploration"
+LEVEL = "other"
 PYTEAL_ERRORS = e2e.PYTEAL_ERRORS
 
 
@@ -117,6 +117,23 @@ def run(report: Report, tier, seed):
     report.trust("spec/progsem.py program descriptions (well-typed by construction)", "spec/avm.py")
     report.assume("no deductive obligations yet for this property: exception-freedom of NormalizeBlocks / addIncoming / validateTree is "
                   "explored by exhaustive small-scope enumeration of control-flow shapes (bounded stand-in), recursion depth is a resource bound")
+    run_contracts(report, [("contracts.c01_flatten", "FlattenBlocks", "O20.2")])
+    from vf.core import use_repo
+    use_repo()
+    from . import ir_native
+    nmax = 3 if tier == "quick" else 4
+    fc, ff = ir_native.check_flatten(nmax)
+    sc, sf = ir_native.check_sort(nmax)
+    report.bounded.append(Bounded(function="flattenBlocks / sortBlocks on every small block graph", contract="no exception other than the documented TealInternalError; control reaches the graph successor",
+                                  bound=f"all graphs of <= {nmax} blocks", cases=fc + sc, distinct_nontrivial=fc + sc, failures=len(ff) + len(sf)))
+
+    def search(fn, obs):
+        return {"input": {"block_list": ff[0]}, "what": ff[0]["what"]} if ff else None
+    report.settle_undecided(search)
+    report.settle_refuted(search)
+    for name, lst in (("flattenBlocks", ff), ("sortBlocks", sf)):
+        if lst and not any(name in v.what for v in report.violations):
+            report.violation(Violation(key=f"ir:{name}:{lst[0]['kinds']}:{lst[0]['succ']}", what=f"{name}: {lst[0]['what']}", replay={"kind": "ir", "input": lst[0]}, confirmed_native=True))
     progs = shape_programs(tier)
     versions = [2, 4, 6, 8, 9, 10] if tier == "quick" else list(range(2, 11))
     jobs = []
@@ -153,8 +170,8 @@ def run(report: Report, tier, seed):
     report.bounded.append(Bounded(function="pyteal.compileTeal on long / deeply nested programs", contract="no non-PyTeal exception",
                                   bound="straight-line, nested If, nested Add of 100..800 (quick) / ..3200 (thorough) nodes",
                                   cases=len(probes), distinct_nontrivial=len(probes), failures=sum(1 for p in pr if p[3])))
-    report.extra["explanation"] = ("bounded stand-ins only (exhaustive small scope of control-flow shapes + generated programs + size probes); "
-                                   "no obligation is counted as proved for C20 yet")
+    report.extra["explanation"] = ("P: exception-freedom of flattenBlocks under wf_blocks (pyvc); B: exhaustive small scope of control-flow shapes and "
+                                   "block graphs, generated programs, size probes")
     # ---- violations ------------------------------------------------------------------------------------
     seen = set()
     for j, r in crashes:
@@ -204,6 +221,13 @@ def _uses_loop(t):
 
 def replay(data):
     r = data["replay"]
+    if r.get("kind") == "ir" or "refuted" in r:
+        from . import ir_native
+        from vf.core import use_repo
+        use_repo()
+        c, f = ir_native.check_flatten(3)
+        print(f[:1])
+        return 1 if f else 0
     if r["kind"] == "shape":
         out = _compile_shape(("replay", _tuplify(r["main"]), r["version"], r["opt"]))
         print(out)
